@@ -14,6 +14,7 @@ package main
 import (
 	"fmt"
 	"math"
+	"os"
 	"sort"
 	"strings"
 
@@ -99,6 +100,22 @@ func runC09() {
 		wfTree := !(tc.hasRewards && rewardsWrite)
 		items = append(items, coqCase(coqList(b), coqEnd(e), full.obs, wfTree))
 		tc.judge(rep, full, ample, desc, fail)
+		if t < 0 && full.run.Tr.Root != nil && os.Getenv("VERIF_DEBUG") != "" { // witness trees: how each precompile call ended
+			var walk func(f *TFrame)
+			walk = func(f *TFrame) {
+				if isPrecompile(f.To) {
+					if m := tc.byInput[string(f.To.Bytes())+string(f.Input)]; m != nil {
+						rep.Notes = append(rep.Notes, fmt.Sprintf("witness %d: %s -> %q", t, m.Kind, f.Err))
+					}
+				}
+				for _, o := range f.Ops {
+					if o.Kind == "frame" {
+						walk(o.Frame)
+					}
+				}
+			}
+			walk(full.run.Tr.Root)
+		}
 		for _, m := range tc.markers {
 			rep.Count("marker:" + m.Kind.String())
 			for _, id := range full.obs.Natives {
